@@ -18,7 +18,7 @@ HARNESSES = [
     {"name": "ce", "src": "harness.cpp", "flags": ["-O0", "-DC02_CE=1", "-DTETL_ENABLE_CONTRACT_CHECKS=1"]},
 ]
 N_BATTERIES = 16
-N_CE = 12
+N_CE = 13
 KINDS = ("sv_int", "sv_nt", "iv_int", "iv_nt", "str7", "str15", "str16", "str255", "str256", "wstr7", "wstr16",
          "string_view", "wstring_view", "span", "span_static0", "mdspan", "static_set", "flat_set", "flat_multiset", "stack",
          "optional", "optional_nt", "variant", "expected", "bitset", "bitset8", "bitset64", "inplace_function", "pair", "tuple",
@@ -46,7 +46,7 @@ ASSUMPTIONS = ["memory safety of the compiled object code beyond the models' ind
 # every package with a model; the sanitizer variant is discovered from the package's own prop.py (see _pick_variant)
 AGGREGATE = ["C01", "C03", "C04", "C06a", "C06b", "C07", "C08", "C09", "C10", "C11", "C12", "C14", "C17", "C18", "C19", "C20"]
 # quick tier: cases sampled per package (the thorough tier runs the package's whole quick AND thorough generators)
-QUICK_CASES = {"C04": 6000, "C06b": 12000, "C09": 6000, "C11": 12000, "C01": 5000, "C03": 3000, "C06a": 12000, "C07": 3000, "C08": 12000, "C10": 10000, "C12": 6000, "C14": 12000, "C17": 600, "C18": 12000, "C19": 3000, "C20": 3000}
+QUICK_CASES = {"C01": 10000, "C03": 6000, "C04": 12000, "C06a": 12000, "C06b": 20000, "C07": 6000, "C08": 20000, "C09": 12000, "C10": 20000, "C11": 20000, "C12": 10000, "C14": 20000, "C17": 1500, "C18": 20000, "C19": 6000, "C20": 6000}
 QUICK_DEFAULT = 4000
 THOROUGH_CASES = 400000
 # C02 is THE sanitizer property: variants that a package marks thorough_only (too expensive for the package's own quick
